@@ -379,5 +379,18 @@ func keysOf(m map[int]string) []int {
 
 func TestRaw(t *testing.T) {
 	E = newEnv(t)
-	vt.Run(t, cRaw, vt.N(8000, 400000), genRaw, runRaw)
+	if vt.ReplayPath() == "" {
+		// fixed reproducers of the listed finding: re-observed on every run
+		probes := knownProbes()
+		for _, name := range pview.SortedKeys(probes) {
+			s := probes[name]
+			nt, key, f := runRaw(s)
+			cRaw.Eval(nt, key)
+			if f != nil { // (a listed finding went through Soft inside the interpreter and is not returned)
+				cRaw.Violation(f, s)
+				t.Fatalf("%s: %v", name, f)
+			}
+		}
+	}
+	vt.Run(t, cRaw, vt.N(8000, 300000), genRaw, runRaw)
 }
